@@ -259,120 +259,125 @@ def run(ctx):
         f = sink_fn(facts, SINKS["summary"], "finish")
         eb = ExprBuilder(f)
         SUM = SINKS["summary"]
-        sws = [s for s in discr_switches(f, SK)]
-        if len(sws) != 1:
+        # Value table on the MIR: rows (kind, match_count ∈ {0,1}, exclude_zero ∈ {0,1}), no binary data; the outcome is which
+        # writes are executable. if/else inside the arms, match guards, a hoisted `has_match` local all read the same.
+        from ..flow import Sccp as _Sccp, combinator_model as _cm
+        sws = [s_ for s_ in discr_switches(f, SK)]
+        variants = facts.variants(SK)
+        PCFG = P + "::summary::Config"
+        if not sws:
             r.bad("switch", "anchor-missing: SummarySink::finish must match on config.kind", fn=f)
         else:
-            bb, adt, place, arms, ow, ow_live, missing = sws[0]
-            variants = facts.variants(SK)
-
-            def region(v):
-                t = arms.get(v, ow)
-                others = set()
-                for v2 in variants:
-                    t2 = arms.get(v2, ow)
-                    if t2 != t:
-                        others |= C.reach(f, [t2])
-                return C.reach(f, [t]) - others
-            gt0 = cond_switches(f, lambda e: e.k == "bin" and e[1] == "Gt" and mentions_field(e, SUM, "match_count"), eb)
-            eq0 = cond_switches(f, lambda e: e.k == "bin" and e[1] == "Eq" and mentions_field(e, SUM, "match_count")
-                                and any(y.k == "const" and y[1] == 0 for y in (e[2], e[3])), eb)
+            w_path = [c for c in f.calls() if c.path == SUM + "::write_path_line"]
+            w_cnt = [c for c in f.calls() if c.path == SUM + "::write" and mentions_field(eb.operand(c.args[1]), SUM, "match_count")
+                     and not mentions_call(eb.operand(c.args[1]), STATS + "::matches")
+                     and not any(x.k == "closure" or mentions_field(x, SUM, "stats") for x in walk(eb.operand(c.args[1])))]
+            w_mat = [c for c in f.calls() if c.path == SUM + "::write" and mentions_call(eb.operand(c.args[1]), STATS + "::matches")]
+            w_any = [c for c in f.calls() if c.path.startswith(SUM + "::write")]
+            wrong = {}
             for v in variants:
-                reg = region(v)
-                writes = [c for c in f.calls() if c.bb in reg and c.path.startswith(SUM + "::write")]
-                if v == "Quiet":
-                    if writes:
-                        r.bad("arm|Quiet", "--quiet writes output", fn=f, construct="Quiet")
+                for mc, ez in itertools.product((0, 1), (0, 1)):
+                    removed = set()
+                    for bb, adt, place, arms, ow, ow_live, missing in sws:
+                        for var, tgt in arms.items():
+                            if var != v:
+                                removed.add((bb, tgt))
+                        if v in arms:
+                            removed.add((bb, ow))
+
+                    def fm(owner, name, mc=mc, ez=ez):
+                        if owner == SUM and name == "match_count":
+                            return I(mc)
+                        if owner == PCFG and name == "exclude_zero":
+                            return I(ez)
+                        return None
+
+                    def inner(call, argv):
+                        if call.path.endswith("SinkFinish::binary_byte_offset"):
+                            return V("None", None)
+                        return None
+                    sx = _Sccp(f, call_model=_cm(facts, inner, field_model=fm, callees=lambda p_: p_.startswith(SUM + "::has_match")),
+                               field_model=fm, removed_edges=removed).run([(0, {})])
+
+                    def ran(cs):
+                        return any(c.bb in sx.exec_blocks for c in cs)
+                    show = (not ez) or mc > 0
+                    if v == "Quiet":
+                        ok_ = not ran(w_any)
+                    elif v == "Count":
+                        ok_ = ran(w_cnt) == show and not ran(w_path) and not ran(w_mat)
+                    elif v == "CountMatches":
+                        ok_ = ran(w_mat) == show and not ran(w_path) and not ran(w_cnt)
+                    elif v == "PathWithMatch":
+                        ok_ = ran(w_path) == (mc > 0) and not ran(w_cnt) and not ran(w_mat)
+                    elif v == "PathWithoutMatch":
+                        ok_ = ran(w_path) == (mc == 0) and not ran(w_cnt) and not ran(w_mat)
                     else:
-                        r.ok("arm|Quiet", "Quiet writes nothing", fn=f)
-                elif v == "Count":
-                    w = [c for c in writes if c.path == SUM + "::write" and mentions_field(eb.operand(c.args[1]), SUM, "match_count")
-                         and not mentions_call(eb.operand(c.args[1]), STATS + "::matches")
-                         and not any(x.k == "closure" or mentions_field(x, SUM, "stats") for x in walk(eb.operand(c.args[1])))]
-                    if w:
-                        r.ok("arm|Count", "Count writes match_count", fn=f)
-                    else:
-                        r.bad("arm|Count", "--count does not print match_count", fn=f, construct="Count")
-                elif v == "CountMatches":
-                    w = [c for c in writes if c.path == SUM + "::write" and mentions_call(eb.operand(c.args[1]), STATS + "::matches")]
-                    if w:
-                        r.ok("arm|CountMatches", "CountMatches writes stats.matches()", fn=f)
-                    else:
-                        r.bad("arm|CountMatches", "--count-matches does not print stats.matches()", fn=f, construct="CountMatches")
-                elif v == "PathWithMatch":
-                    w = [c for c in writes if c.path == SUM + "::write_path_line"]
-                    sw = [s for s in gt0 if s[0] in reg]
-                    if w and sw and not guarded(f, [w[0].bb], sw, True):
-                        r.ok("arm|PathWithMatch", "path written iff match_count > 0", fn=f)
-                    else:
-                        r.bad("arm|PathWithMatch", "-l does not list exactly the files with match_count > 0", fn=f, construct="PathWithMatch")
-                elif v == "PathWithoutMatch":
-                    w = [c for c in writes if c.path == SUM + "::write_path_line"]
-                    sw = [s for s in eq0 if s[0] in reg]
-                    if w and sw and not guarded(f, [w[0].bb], sw, True):
-                        r.ok("arm|PathWithoutMatch", "path written iff match_count == 0", fn=f)
-                    else:
-                        r.bad("arm|PathWithoutMatch", "--files-without-match does not list exactly the files with match_count == 0", fn=f,
-                              construct="PathWithoutMatch")
-        # show_count
-        lets = {}
-        for x in H.walk(f.hir):
-            if isinstance(x, dict) and x.get("k") == "let" and x.get("pat", {}).get("k") == "bind":
-                lets[x["pat"]["name"]] = x.get("init")
-        sc = lets.get("show_count")
-        if sc is not None:
-            atoms = ["self.summary.config.exclude_zero", "(self.match_count Gt 0)"]
-            ok, detail = H.equivalent(sc, atoms, lambda v: (not v[atoms[0]]) or v[atoms[1]])
-            if ok:
-                r.ok("show_count", "count shown ⇔ ¬exclude_zero ∨ match_count > 0", fn=f)
+                        ok_ = True
+                    if not ok_:
+                        wrong.setdefault(v, []).append("match_count=%d exclude_zero=%d: path %s, count %s, matches %s" % (
+                            mc, ez, ran(w_path), ran(w_cnt), ran(w_mat)))
+            texts = {"Quiet": "--quiet writes output", "Count": "--count does not print match_count exactly when ¬exclude_zero ∨ match_count > 0",
+                     "CountMatches": "--count-matches does not print stats.matches() exactly when ¬exclude_zero ∨ match_count > 0",
+                     "PathWithMatch": "-l does not list exactly the files with match_count > 0",
+                     "PathWithoutMatch": "--files-without-match does not list exactly the files with match_count == 0"}
+            for v in variants:
+                if v in wrong:
+                    r.bad("arm|" + v, "%s (%s)" % (texts.get(v, v), wrong[v][0]), fn=f, construct=v)
+                else:
+                    r.ok("arm|" + v, "SummaryKind::%s: 4 rows (match_count × exclude_zero) write what the mode promises" % v, fn=f)
+            if "Count" in wrong or "CountMatches" in wrong:
+                r.bad("show_count", "show_count: the count is not shown exactly when ¬exclude_zero ∨ match_count > 0", fn=f, construct="show_count")
             else:
-                r.bad("show_count", "show_count: %s" % detail, fn=f, construct="show_count")
-        else:
-            r.bad("show_count", "anchor-missing: show_count", fn=f)
+                r.ok("show_count", "count shown ⇔ ¬exclude_zero ∨ match_count > 0", fn=f)
 
     with ctx.rule("C10.MODE", "mode normalisation, SearchMode → printer mapping, quit_after_match, max_count wiring", floor=12,
                   exhaustive=True, kind="TABLE/WIRE") as r:
         f = facts.fn(HI + "::from_low_args")
         SM = "rg::flags::lowargs::SearchMode"
-        # find the inner match on *mode
-        ms = [x for x in H.find(f.hir, lambda x: x.get("k") == "match" and x.get("scrut_ty") == SM)]
-        # Decide the normalisation as a table over (mode, -o, -v): evaluate the arms in source order (first arm whose
-        # pattern and guard hold wins, single pass) and compare with what the modes mean: --count-matches under -v counts
-        # nothing useful and is --count; -o turns --count into --count-matches (only without -v, for the same reason).
-        import itertools
-        arms_ = []
-        for m in ms:
-            for a in m["arms"]:
-                pat = H.canon_pat(a["pat"]).split("::")[-1]
-                assigns = [H.canon(x["r"]).split("::")[-1] for x in H.find(a["body"], lambda x: x.get("k") == "assign")]
-                arms_.append((pat, a.get("guard"), assigns))
-        A_O, A_V = "low.only_matching", "low.invert_match"
-        bad_rows, unknown = [], None
-        for m0, o, v in itertools.product(("Count", "CountMatches"), (False, True), (False, True)):
-            got = m0
-            for pat, guard, assigns in arms_:
-                if pat not in (m0, "_"):
-                    continue
-                try:
-                    hold = True if guard is None else H.evalb(guard, {A_O: o, A_V: v})
-                except KeyError as e_:
-                    unknown = str(e_)
-                    hold = False
-                if hold:
-                    if assigns:
-                        got = assigns[-1]
-                    break
-            want = "Count" if v else ("CountMatches" if (o or m0 == "CountMatches") else "Count")
-            if got != want:
-                bad_rows.append("(%s, -o=%d, -v=%d) ⇒ %s, expected %s" % (m0, o, v, got, want))
-        others = [pat for pat, g, asg in arms_ if asg and pat not in ("Count", "CountMatches")]
-        if unknown:
-            r.bad("normalise", "mode normalisation depends on %s besides -o / -v" % unknown, fn=f, construct="normalise")
-        elif bad_rows or others:
-            r.bad("normalise", "mode normalisation: %s%s" % ("; ".join(bad_rows), (" rewrites also %s" % others) if others else ""),
-                  fn=f, construct="normalise")
+        # Decide the normalisation as a table over (mode, -o, -v) on the MIR: the switch on the mode is pinned to the row's
+        # variant, the two flags are the row's field values, and what the mode ends up as is the variant that the executable
+        # code stores (nothing stored: unchanged). --count-matches under -v counts nothing useful and is --count; -o turns
+        # --count into --count-matches (only without -v, for the same reason).
+        pass
+        from ..flow import Sccp as _Sccp, combinator_model as _cm
+        from ..graph import discr_switches as _ds
+        LOW_ = "rg::flags::lowargs::LowArgs"
+        sws = [x for x in _ds(f) if x[1] == SM and any(v_ in x[3] for v_ in ("Count", "CountMatches"))]
+        stores = [(bb, st["rv"]["variant"]) for bb, j_, st in f.stmts()
+                  if st["k"] == "assign" and st["rv"]["k"] == "agg" and st["rv"].get("adt") == SM]
+        bad_rows = []
+        if not sws or not stores:
+            r.bad("normalise", "anchor-missing: no switch on the search mode / no store of a SearchMode in from_low_args", fn=f,
+                  construct="normalise")
         else:
-            r.ok("normalise", "8-row table: -v ⇒ --count; else -o ∨ --count-matches ⇒ --count-matches; else --count", fn=f)
+            for m0, o, v in itertools.product(("Count", "CountMatches"), (0, 1), (0, 1)):
+                removed = set()
+                for bb, adt, place, arms, ow, ow_live, missing in sws:
+                    for var, tgt in arms.items():
+                        if var != m0:
+                            removed.add((bb, tgt))
+                    if m0 in arms:
+                        removed.add((bb, ow))
+
+                def fm(owner, name, o=o, v=v):
+                    if owner == LOW_ and name == "only_matching":
+                        return I(o)
+                    if owner == LOW_ and name == "invert_match":
+                        return I(v)
+                    return None
+                sx = _Sccp(f, call_model=_cm(facts, None, field_model=fm), field_model=fm, removed_edges=removed).run([(sws[0][0], {})])
+                ran = [var for bb, var in stores if bb in sx.exec_blocks]
+                got = ran[-1] if ran else m0
+                if len(set(ran)) > 1:
+                    got = "/".join(sorted(set(ran)))
+                want = "Count" if v else ("CountMatches" if (o or m0 == "CountMatches") else "Count")
+                if got != want:
+                    bad_rows.append("(%s, -o=%d, -v=%d) ⇒ %s, expected %s" % (m0, o, v, got, want))
+            if bad_rows:
+                r.bad("normalise", "mode normalisation: %s" % "; ".join(bad_rows), fn=f, construct="normalise")
+            else:
+                r.ok("normalise", "8-row table: -v ⇒ --count; else -o ∨ --count-matches ⇒ --count-matches; else --count", fn=f)
         # it precedes every use of low.mode by other conversions
         qam = None
         for x in H.walk(f.hir):
